@@ -249,6 +249,10 @@ def check_C06(tier, seed, t0):
                            'amc::allocator<T>::reallocate (real malloc/realloc and over the ledger) for T in {int, TC, TR, NTR}: old capacity 0..12 x new capacity '
                            '1..14 x live count 0..min(old,new): live elements preserved (values, identities, exactly `live` objects alive), block handed back with the '
                            'new count; non-trivial = >=2 live elements and a capacity change', crash_is_violation=True))
+    parts.append(enum_part('C06', 'swap2_pairs_allocator_protocol', c13_units(), seed, tier,
+                           'the C13 grid of swap2 between every ordered pair of vector flavours (allocator types with and without reallocate, wrapped basic allocator; '
+                           'size types of different widths), here for the allocator clauses: every block goes back once, to the allocator type that provided it, with '
+                           'the element count it was requested with, whether swap2 returned or threw', crash_is_violation=True, shards=4))
     parts += fuzz_parts('C06', tier, seed, ('vec', 'fs', 'ss'), False)
     return finish('C06', tier, seed, 'exploration', parts, VEC_RULES['C06'], ASSUME_COMMON + ['all allocator instances compare equal'], t0)
 
